@@ -148,6 +148,20 @@ def check_case(case):
     cond = parts[5]
     if not cond < 1e13:
         return {"v": [], "cls": cls, "nt": False, "skip": True}
+    # "in the range where both are well-conditioned": the spline polynomial must not be a difference of
+    # astronomically larger terms (steep end potentials on a short interval give coefficients ~1e19 whose
+    # cancellation error exceeds the function itself).  Decided on the reference's own solve.
+    co_ref = parts[3]
+    for x in (detach, attach):
+        if parts[0] == "exp":
+            s0 = sum(abs(c * x ** k) for k, c in enumerate(co_ref))
+            if s0 > 1e8:
+                return {"v": [], "cls": cls + ["ill_conditioned"], "nt": False, "skip": True}
+        else:
+            for cs in (co_ref[:6], co_ref[6:]):
+                s0 = sum(abs(c * x ** k) for k, c in enumerate(cs))
+                if s0 > 1e8 * max(abs(ja.v), abs(jb.v), 1e-300):
+                    return {"v": [], "cls": cls + ["ill_conditioned"], "nt": False, "skip": True}
     # ---- build every route ---------------------------------------------------
     start = getattr(pf, a_node["name"])(*a_node["p"])
     end = getattr(pf, b_node["name"])(*b_node["p"])
